@@ -34,6 +34,74 @@ def batches(edits):
     return out
 
 
+def copy_tree(repo, root):
+    os.makedirs(root)
+    for sub in ('src', 'include', 'cli', 'unit_tests', 'tests', 'cmake', 'python_interface', 'examples'):
+        s = os.path.join(repo, sub)
+        if os.path.isdir(s):
+            shutil.copytree(s, os.path.join(root, sub), ignore=shutil.ignore_patterns('aut_timbuk_smaller', 'fa_timbuk_armc', 'random_difficult_cases'))
+    for f in ('CMakeLists.txt', 'Doxyfile.in', 'COPYING', 'README.md'):
+        if os.path.exists(os.path.join(repo, f)):
+            shutil.copy(os.path.join(repo, f), os.path.join(root, f))
+
+
+def run_seeded(prop, rule_names, scratch, repo='/repo'):
+    """Regression of the checker against the independently written breaking changes kept under
+    seeded/: every patch recorded as detected for this property is applied to a scratch copy and the
+    property's rules must report a violation there. A patch that no longer applies (the code under
+    analysis changed) is skipped."""
+    import subprocess
+    import vcheck
+    import rules as R
+    import re
+    res_path = os.path.join(HERE, 'seeded', 'RESULTS.json')
+    summary = {'seeds': 0, 'applied': 0, 'detected': 0, 'skipped': [], 'missed': []}
+    broken = []
+    if not os.path.exists(res_path):
+        return summary, broken
+    with open(res_path) as f:
+        results = json.load(f)
+    known = vcheck.load_known()
+    for sid in sorted(results):
+        x = results[sid]
+        if x['property'] != prop or not x.get('detected'):
+            continue
+        summary['seeds'] += 1
+        root = os.path.join(scratch, 'seed-' + sid, 'repo')
+        copy_tree(repo, root)
+        r = subprocess.run(['patch', '-p1', '-s', '-d', root, '-i', os.path.join(HERE, 'seeded', sid, 'patch.diff')],
+                           stdout=subprocess.PIPE, stderr=subprocess.STDOUT, text=True)
+        if r.returncode != 0:
+            summary['skipped'].append(sid + ' (patch does not apply)')
+            shutil.rmtree(os.path.join(scratch, 'seed-' + sid), ignore_errors=True)
+            continue
+        summary['applied'] += 1
+        sub = os.path.join(scratch, 'seed-' + sid, 'work')
+        os.makedirs(sub)
+        try:
+            records, _ = vcheck.run_rules(root, rule_names, 'quick', sub)
+        except vcheck.Broken as ex:
+            broken.append('seeded change %s does not analyse: %s' % (sid, str(ex)[:200]))
+            continue
+        hit = False
+        for rec in vcheck.merge(records):
+            if rec['kind'] != 'violation':
+                continue
+            flt = R.FILTER.get((prop, rec['rule']))
+            if flt and not re.search(flt, rec['file']):
+                continue
+            if vcheck.match_known(rec, prop, known):
+                continue
+            hit = True
+        if hit:
+            summary['detected'] += 1
+        else:
+            summary['missed'].append(sid)
+            broken.append('the rules of %s no longer report the seeded breaking change %s' % (prop, sid))
+        shutil.rmtree(os.path.join(scratch, 'seed-' + sid), ignore_errors=True)
+    return summary, broken
+
+
 def run(rule_names, scratch, repo='/repo'):
     import vcheck
     edits = load_edits(rule_names)
